@@ -43,6 +43,23 @@ Fixpoint phist (L : nat) (P : plane (GRS L)) (last : option (pwf (GRS L))) (acts
   | ASetMask m :: r => phist L (set_mask_inplace P (init_mask (gnz L) (pl_amp P) m)) last r
   end.
 
+(* op 6: what a constructed plane shows: amplitude, mask, shape, size, global_mask, pixelscale, focal length *)
+Definition egb (a : garr bool) : list Z :=
+  pnr a :: pnc a :: flat_map (fun i => map (fun j => zofb (pget a i j)) (zrange (pnc a))) (zrange (pnr a)).
+Definition eplane (L : nat) (P : plane (GRS L)) : list Z :=
+  (match pl_amp P with AmpS v => 0 :: eK L v | AmpA a => 2 :: earr L a end)
+  ++ (match pl_opd P with
+      | OpdS q => 0 :: eQ q
+      | OpdA a => 2 :: pnr a :: pnc a :: flat_map (fun i => flat_map (fun j => eQ (pget a i j)) (zrange (pnc a))) (zrange (pnr a))
+      end)
+  ++ (match pl_mask P with PM0 b => [0; zofb b] | PM2 a => 2 :: egb a | PM3 n m l => 3 :: n :: m :: elist egb l end)
+  ++ eopt (fun '(a, b) => [a; b]) (plane_dims (pl_mask P)) ++ [Z.of_nat (psize (pl_mask P))]
+  ++ (match plane_dims (pl_mask P) with
+      | None => [global_mask (pl_mask P) 0 0]
+      | Some (n, m) => flat_map (fun i => map (fun j => global_mask (pl_mask P) i j) (zrange m)) (zrange n)
+      end)
+  ++ epix (pl_pix P) ++ eopt efocal (pl_focal P) ++ [Z.of_nat (length (pl_tilt P))].
+
 Definition run (inp : list Z) : list Z :=
   match inp with
   | op :: Lz :: rest =>
@@ -67,6 +84,18 @@ Definition run (inp : list Z) : list Z :=
       match pall (k <- pZ ;; rp <- p_plane0 L k ;; acts <- plist (p_action L) ;; pret (rp, acts)) rest with
       | Some (Ok P, acts) => 0 :: phist L P None acts
       | Some (Err e, _) => [1; errcode e]
+      | None => emalformed end
+    else if op =? 6 then   (* Plane(amplitude=, amp=, opd=, mask=, pixelscale=) / Pupil(..., focal_length=) *)
+      match pall (k <- pZ ;; a <- p_amp L ;; al <- popt (p_amp L) ;; o <- p_opd ;; m <- p_mraw L ;; px <- p_pix ;;
+                  f <- popt pQ ;; pret (k, a, al, o, m, px, f)) rest with
+      | Some (k, a, al, o, m, px, f) =>
+          eresult (eplane L)
+            (plane_init_kw (gnz L) a al o m px
+               (if k =? 0 then None else Some (match f with Some q => FVal q | None => FNone end)) [])
+      | None => emalformed end
+    else if op =? 7 then   (* Wavefront(wavelength, pixelscale, focal_length, tilt=...) *)
+      match pall (lam <- pQ ;; px <- p_pix ;; f <- popt pQ ;; t <- popt (plist pQ) ;; pret (lam, px, f, t)) rest with
+      | Some (lam, px, f, t) => eresult (ewf L) (pwf_init_kw lam px f t)
       | None => emalformed end
     else if op =? 3 then   (* explicit list of fields: Wavefront.field, .intensity, .insert(out, weight) *)
       match pall (n <- pZ ;; m <- pZ ;; fs <- plist (pfield L) ;; out <- parr L ;; wt <- pK L ;;
